@@ -32,6 +32,7 @@ def py_format(flags, opc, key, n):
 
 class C18(Prop):
     id = 'C18'
+    props_files = ['C18', 'C18b']
     required_theorems = ['C18_parse_format', 'C18_format_len', 'C18_shortest', 'C18_trichotomy_incomplete', 'C18_prefix_stable',
                          'C18_reencode', 'C18_frame_len', 'C18_encoders_agree']
     engine_desc = 'E1 FrameHeader::parse/format/len, Frame::format, Frame::len, FrameSocket::write (format_into_buf) vs Header.v/Frame.v'
